@@ -1,6 +1,6 @@
 """C04 — the token stream is a faithful, layout-independent reading of the text."""
 import hashlib, json, os, random, shutil
-import common, gen04, lexgen, sqlgen
+import common, gen04, lexcoq, lexgen, sqlgen
 from common import Report, log
 
 MANIFEST = dict(
@@ -9,7 +9,7 @@ MANIFEST = dict(
     note=common.BASE_NOTE + "C04: the theorems are about Model/Lexer.v; its tie to tokenizer.go is the differential correspondence (extracted OCaml, ExtrOcamlBasic only, cross-checked in Coq on a sample) plus the regenerated tables. strings.ToUpper is modelled only as far as a lookup in the ASCII-keyed keyword maps can observe it (table of non-ASCII runes with ASCII upper-case image is regenerated). Compound keywords are judged after splitting (raw GROUP BY is one token): the splitting/upper-casing function normalize of Spec/LexSpec.v is the one the reference-lexer oracle applies to the implementation output (lexgen.norm_raw); its agreement with the parser token converter is an oracle (converted kinds/values equal under re-layout), not a theorem. lex_faithful needs the text to fit MaxInputSize/MaxTokens (hypothesis fits).",
     design="6/C04")
 
-COQ_TARGETS = ["theories/Proofs/LexerP.vo", "theories/Proofs/LexSpecP.vo", "theories/Proofs/LexNormP.vo"]
+COQ_TARGETS = ["theories/Proofs/LexerP.vo", "theories/Proofs/LexSpecP.vo", "theories/Proofs/LexNormP.vo", "theories/Spec/LexRefEval.vo"]
 PROPS = "theories/Props/C04.v"
 THEOREMS = ["C04_tokenize_total", "C04_exactly_one_eof", "C04_tokenize_shape", "C04_size_limit", "C04_size_limit_exact",
             "C04_token_limit_bound", "C04_comments_captured", "C04_sep_skip", "C04_munch", "C04_lex_faithful_raw",
@@ -43,7 +43,7 @@ def ensure_coqproject():
     need = ["theories/Gen/LexTables.v", "theories/Model/Lexer.v", "theories/Inst/Inst_C04.v", "theories/Spec/LexSpec.v",
             "theories/Proofs/LexerP.v", "theories/Proofs/LexSpecP.v", "theories/Proofs/LexUtf8P.v", "theories/Proofs/LexSepP.v",
             "theories/Proofs/LexMunchP.v", "theories/Proofs/LexWordP.v", "theories/Proofs/LexFaithP.v",
-            "theories/Proofs/LexNormP.v", "theories/Props/C04.v"]
+            "theories/Proofs/LexNormP.v", "theories/Spec/LexRefEval.v", "theories/Props/C04.v"]
     try:
         have = open(pj).read().split()
     except OSError:
@@ -420,6 +420,7 @@ def run(tier):
     add("operator_pairs_x_separators", pairs)
     nstream = 3000 if quick else 60000
     streams = [lexgen.gen_stream(rng, tb) for _ in range(nstream)]
+    stream_off = len(inputs)
     add("lexeme_streams", [s[0] for s in streams])
     corpus = sqlgen.corpus_statements()
     add("corpus", corpus)
@@ -512,6 +513,54 @@ def run(tier):
         if not okc or badl:
             rp.violation({"kind": "tool", "detail": (errc or outc)[-2000:], "bad": badl,
                           "explanation": "the extracted OCaml model and the Coq model disagree (extraction or driver fault)"}, "extraction_crosscheck", no_input=True)
+
+    # ---- reference-grammar cross-check: generated lexeme streams as terms of Spec/LexSpec.v; Coq decides wf and computes the
+    # reading lex_faithful prescribes (tokens with spans, one EOF, comments); it must equal the Go tokenizer's output.
+    # Ties the formal grammar to the generator's grammar and measures how much of the generated space is inside wf.
+    if ok_inst:
+        nref = 500 if quick else 6000
+        per = 500
+        codes = {0: 0, 1: 0, 2: 0, 3: 0}
+        unconv, ref_bad, okr_all, ref_err = 0, [], True, ""
+        picked = [k for k in range(len(streams)) if len(streams[k][0]) <= 400][:nref]
+        for sh in range(0, len(picked), per):
+            terms, idx = [], []
+            for k in picked[sh:sh + per]:
+                text, lx, sp_ = streams[k]
+                want = outs[stream_off + k].get("c")
+                t = lexcoq.case_term(lx, sp_, inputs[stream_off + k], want) if want else None
+                if t is None:
+                    unconv += 1
+                    continue
+                terms.append(t); idx.append(k)
+            if not terms:
+                continue
+            okr, outr, errr = common.coq_cases("c04_ref_%d" % (sh // per), "\n".join(lexcoq.HEADER) + "\n" + ";\n".join(terms) + "\n" + lexcoq.FOOTER)
+            if not okr:
+                okr_all, ref_err = False, (errr or outr)[-1500:]
+                break
+            res = common.parse_nlist(outr)
+            for k, c in zip(idx, res):
+                codes[c] = codes.get(c, 0) + 1
+                if c in (2, 3):
+                    ref_bad.append((k, c))
+        rp.cov["reference_grammar_crosscheck"] = {"streams": len(picked), "well_formed_and_equal": codes[0], "not_well_formed": codes[1],
+                                                  "well_formed_but_different": codes[2], "conversion_fault": codes[3] + unconv}
+        rp.obligation("reference grammar cross-check: on %d generated streams that Coq decides well-formed, the reading prescribed by Spec/LexSpec.v "
+                      "(expect_all, evaluated by vm_compute) = the Go tokenizer's canonical output; %d streams outside wf" % (codes[0], codes[1]),
+                      okr_all and not ref_bad and codes[0] >= len(picked) // 2, ref_err or str(ref_bad[:5]))
+        for k, c in ref_bad[:3]:
+            b, o = inputs[stream_off + k], outs[stream_off + k]
+            fs = oracle(b, o, tb)
+            rp.violation({"kind": "correspondence", "broken": "reading prescribed by Spec/LexSpec.v (lex_faithful) vs Go tokenizer" if c == 2 else "stream -> Spec term conversion (lib/lexcoq.py)",
+                          "input_hex": hx(b), "input": b.decode("utf-8", "replace"), "lexemes": streams[k][1], "separators": streams[k][2],
+                          "impl_canon": o.get("c"), "oracle_failures": fs,
+                          "explanation": "a lexeme stream that the formal grammar accepts as well-formed is not read by the implementation as lex_faithful prescribes"},
+                         "ref_%d" % k, no_input=not fs)
+        if not okr_all or codes[0] < len(picked) // 2:
+            rp.violation({"kind": "tool", "detail": ref_err, "codes": codes,
+                          "explanation": "the reference-grammar cross-check could not be evaluated or covers less than half of the generated streams"},
+                         "ref_crosscheck", no_input=True)
 
     # ---- layout independence oracle: same lexemes, other separators / keyword case => same kinds+values, same parse
     lay_in = [s for s in corpus if len(s) < 1500][: (250 if quick else 3000)] + sqlgen.generated_statements(rng, 150 if quick else 2000) \
